@@ -402,6 +402,9 @@ class SpecEnv(object):
         netref_idpack = U("netref_idpack", Val, Val)
         id_pack = U("id_pack", Val, Val)
         decoded = U("decoded", Bytes, Val)
+        str_of = U("str_of", Val, Bytes)
+        seq_of = U("seq_of", Int, Val, Val)
+        dict_view = U("dict_view", Int, z3.ArraySort(Val, Val), z3.ArraySort(Val, Bool), Val)
         subclass_inst = U("subclass_inst", Int, Int, Bool)
 
         def p_be32(ctx, n):
@@ -498,6 +501,11 @@ class SpecEnv(object):
             return b2v(z3.Or([ops._z(ops.eq(h, k)) for k in keys]))
         P["known_handler"] = p_known_handler
         P["is_close_handler"] = lambda ctx, h: b2v(ops._z(ops.eq(h, ctx.S.consts["HANDLE_CLOSE"])))
+        P["n_requests"] = lambda ctx: len([e for e in ctx.st.trace if e[0] == "Request"])
+        P["request_kind"] = lambda ctx, i: [e for e in ctx.st.trace if e[0] == "Request"][i][1]
+        P["request_conn"] = lambda ctx, i: SVal([e for e in ctx.st.trace if e[0] == "Request"][i][2])
+        P["request_args"] = lambda ctx, i: SVL([e for e in ctx.st.trace if e[0] == "Request"][i][3])
+        P["request_result"] = lambda ctx, i: SVal([e for e in ctx.st.trace if e[0] == "Request"][i][4])
         P["loop_ghost"] = lambda ctx, i, g: [e for e in ctx.st.trace if e[0] == "Loop"][i][2][g]
         P["n_events"] = lambda ctx: len(ctx.st.trace)
         P["n_ev"] = lambda ctx, kind: len([e for e in ctx.st.trace if e[0] == kind])
@@ -536,6 +544,38 @@ class SpecEnv(object):
             return r
         P["netref_idpack"] = p_netref_idpack
         P["id_pack"] = lambda ctx, v: SVal(id_pack(to_val(v)))
+        def p_label_is(ctx, pkg, label):
+            z = to_val(pkg)
+            l = Val.titems(z)
+            shape = z3.And(Val.is_VTuple(z), VL.is_cons(l), VL.is_cons(VL.tl(l)), VL.tl(VL.tl(l)) == VL.nil)
+            return b2v(z3.And(shape, ops._z(ops.eq(SVal(VL.hd(l)), label))))
+        P["label_is"] = p_label_is
+        P["payload"] = lambda ctx, pkg: SVal(VL.hd(VL.tl(Val.titems(to_val(pkg)))))
+
+        def p_iter_source(ctx, v):
+            """the items a `for` over the plain value v visits: a tuple's items (a frozenset's in its iteration order)"""
+            z = to_val(v)
+            return SVL(z3.If(Val.is_VTuple(z), Val.titems(z), z3.If(Val.is_VFset(z), order_of(Val.fitems(z)), iter_items(z))))
+        P["iter_source"] = p_iter_source
+        def _dict_items(ctx, d):
+            eng = ctx.engine
+            return SVal(dict_view(z3.IntVal(2), eng.heap_get(ctx.st, d, "map").z, eng.heap_get(ctx.st, d, "has").z))
+        P["dict_items"] = _dict_items
+        P["is_int"] = lambda ctx, v: b2v(z3.And(Val.is_VInt(to_val(v))))
+        P["tuple_of"] = lambda ctx, v: SVal(seq_of(z3.IntVal(0), to_val(v)))
+        P["list_of"] = lambda ctx, v: SVal(seq_of(z3.IntVal(1), to_val(v)))
+        P["n_local"] = lambda ctx: len([e for e in ctx.st.trace if e[0] in ("LocalGet", "LocalSet", "LocalDel")])
+        P["n_ops"] = lambda ctx: len([e for e in ctx.st.trace if e[0] == "Op"])
+        P["op_name"] = lambda ctx, i: [e for e in ctx.st.trace if e[0] == "Op"][i][1]
+        P["op_target"] = lambda ctx, i: SVal([e for e in ctx.st.trace if e[0] == "Op"][i][2])
+        P["op_args"] = lambda ctx, i: SVL([e for e in ctx.st.trace if e[0] == "Op"][i][3])
+        P["op_result"] = lambda ctx, i: SVal([e for e in ctx.st.trace if e[0] == "Op"][i][4])
+        P["str_of"] = lambda ctx, v: SStr(str_of(to_val(v)))
+
+        def p_refcount(ctx, v):
+            arr = ctx.st.heap[("$netref", "refcount")] if ("$netref", "refcount") in ctx.st.heap else ctx.engine.netref_refcounts0()
+            return SInt(z3.Select(arr.z, to_val(v)))
+        P["refcount"] = p_refcount
         P["decoded"] = lambda ctx, b: SVal(decoded(zseq(b) if not isinstance(b, SVal) else Val.vby(b.z)))
 
         def p_is_netref(ctx, v):
@@ -556,6 +596,8 @@ class SpecEnv(object):
                               VL.tl(VL.tl(VL.tl(l))) == VL.nil, Val.is_VStr(VL.hd(l)), Val.is_VInt(VL.hd(VL.tl(l))),
                               Val.is_VInt(VL.hd(VL.tl(VL.tl(l))))))
         P["is_id_pack"] = p_is_id_pack
+        P["idpack_cid"] = lambda ctx, v: SInt(Val.vi(VL.hd(VL.tl(Val.titems(to_val(v))))))
+        P["idpack_iid"] = lambda ctx, v: SInt(Val.vi(VL.hd(VL.tl(VL.tl(Val.titems(to_val(v)))))))
         P["pair"] = lambda ctx, a, b: SVal(Val.VTuple(VL.cons(to_val(a), VL.cons(to_val(b), VL.nil))))
         P["sent_part"] = lambda ctx, a, b: SBytes(sent_part(zseq(a), zseq(b)))
         P["zdecomp"] = lambda ctx, d: SBytes(zdecomp(zseq(d)))
@@ -655,6 +697,19 @@ class SpecEnv(object):
                         Val.is_VInt(VL.hd(VL.tl(l))), Val.vi(VL.hd(VL.tl(l))) >= 0)
             return b2v(z3.ForAll([q], z3.Implies(z3.Select(h, q), ok), patterns=[z3.Select(h, q)]))
         P["all_slots_ok"] = p_all_slots_ok
+
+        def p_cache_ok(ctx, d, conn):
+            """class invariant of the proxy cache: what is cached under an id pack is a proxy of this connection for
+            exactly that id pack, with a positive reference count"""
+            m, h = ctx.engine.heap_get(ctx.st, d, "map").z, ctx.engine.heap_get(ctx.st, d, "has").z
+            q = z3.Const("q!cache", Val)
+            p = z3.Select(m, q)
+            from .sorts import type_id
+            import rpyc.core.netref as nr
+            isn = z3.And(Val.is_VRef(p), subclass_inst(Val.oid(p), type_id(nr.BaseNetref)))
+            ok = z3.And(isn, netref_idpack(p) == q, netref_conn(p) == to_val(conn))
+            return b2v(z3.ForAll([q], z3.Implies(z3.Select(h, q), ok), patterns=[z3.Select(h, q)]))
+        P["cache_ok"] = p_cache_ok
 
         def p_unchanged_except(ctx, d, key):
             """every entry of dict d other than `key` is what it was at function entry"""
